@@ -470,7 +470,7 @@ pub fn run(ctx: &Ctx, rep: &mut Report) {
         let mut rng = ctx.rng_for(uni);
         rep.begin_universe(uni);
         let retentions: &[u64] = &[0, 1, 2, 5, u64::MAX];
-        let max_signers = if rng.chance(1, 40) { 32 } else { 8 };
+        let max_signers = if rng.chance(1, 10) { 40 } else { 8 };
         let mut w = match build_world(&mut rng, retentions, max_signers, 6) {
             Some(w) => w,
             None => {
@@ -498,6 +498,18 @@ pub fn run(ctx: &Ctx, rep: &mut Report) {
                 if w.u.advance(d) {
                     rep.step(format!("ledger advances by {}", d));
                     rep.count("advance-ledger");
+                }
+            }
+            // the owner upgrades (to the same code) and migrates: nothing the gateway knows may change
+            if rng.chance(1, 25) {
+                let ga = w.g.addr.clone();
+                match w.u.upgrade_and_migrate(&ga) {
+                    Ok(()) => rep.count("upgrade-and-migrate"),
+                    Err(e) => {
+                        rep.step(format!("upgrade and migrate -> {}", e));
+                        rep.foreign("upgrade-or-migrate-refused");
+                        break;
+                    }
                 }
             }
             if rng.chance(1, 7) {
